@@ -27,7 +27,20 @@ class ECell:
     accept: Optional[set] = None   # alternative acceptable texts
 
 
+def bar_encoding(obj):
+    """Token encoding of a barline (what the tree holds): type without the number and without the invisibility mark."""
+    base = obj['eq'] + obj['type'] + obj['fermata']
+    acc = {base}
+    if obj['type'] == ':!:':
+        acc.add(obj['eq'] + ':|!|:' + obj['fermata'])
+    return base, acc
+
+
 def bar_expected(obj):
+    """Exported text of a barline.  An invisible barline (=-) is exported as a null by kernpy's hidden flag; only the
+    measure-structure workloads generate them (DESIGN 2.2)."""
+    if obj.get('hidden'):
+        return '.', {'.'}
     base = obj['eq'] + obj['type'] + obj['fermata']
     acc = {base}
     if obj['type'] == ':!:':
